@@ -117,9 +117,10 @@ pub fn replay_type(case: &Value) -> (crate::erralg::Outcome, String) {
 fn field_type(uses: &[String], salt: usize) -> String {
     let has = |p: &str| uses.iter().any(|u| u == p);
     match (has("T"), has("U")) {
-        (false, false) => ["u8", "Vec<String>", "m::T", "::U", "Map<T = u8>"][salt % 5].to_string(),
-        (true, false) => ["T", "Vec<T>", "&'a [T]", "Option<Box<dyn Fn(T) -> u8>>", "a::B<T>::C", "T::Item"][salt % 6].to_string(),
-        (false, true) => ["U", "(U, u8)", "fn(U)", "[U; N]"][salt % 4].to_string(),
+        // a parameter named only as the self type of a qualified path is not used for the purpose of bounds
+        (false, false) => ["u8", "Vec<String>", "m::T", "::U", "Map<T = u8>", "<T as Tr>::Out", "Option<<U as Tr>::Out>"][salt % 7].to_string(),
+        (true, false) => ["T", "Vec<T>", "&'a [T]", "Option<Box<dyn Fn(T) -> u8>>", "a::B<T>::C", "T::Item", "(T, <U as Tr>::Out)"][salt % 7].to_string(),
+        (false, true) => ["U", "(U, u8)", "fn(U)", "[U; N]", "(<T as Tr>::Out, U)"][salt % 5].to_string(),
         (true, true) => ["(T, U)", "Result<T, U>", "fn(T) -> U", "HashMap<T, Vec<U>>"][salt % 4].to_string(),
     }
 }
